@@ -222,6 +222,9 @@ def buildAst (files : List (Nat × File × List Nat)) : Nat → Nat → Option A
     | some (_, f, refs) =>
       (refs.mapM (buildAst files fuel)).map fun rs => Ast.mk f rs
 
+partial def allFiles : Ast → List File
+  | .mk f refs => f :: refs.flatMap allFiles
+
 def tdOf (path name : Str) (withUuid : Bool) : TypeDesc :=
   .mk path name .none .none (if withUuid then some [(uuidKey, uuidTok)] else none)
 
@@ -237,7 +240,8 @@ def step (st : St) (line : String) : St × String :=
   | "M" :: r =>
     match pFile r with
     | some (f, []) =>
-      (st, match Std.toW prog (.struct sFileDescriptor) (gFile (describe f)) with
+      (st, if !wtB prog.structs (.struct sFileDescriptor) (gFile (describe f)) then "notwt" else
+        match Std.toW prog (.struct sFileDescriptor) (gFile (describe f)) with
         | .ok w => "ok " ++ VL.hexEncode (Wire.encW (canonW w))
         | .err => "err"
         | .panic => "panic")
@@ -248,6 +252,13 @@ def step (st : St) (line : String) : St × String :=
         | some v => "ok " ++ dump sFileDescriptor v
         | none => "err")
     | none => (st, "bad-op")
+  | "AA" :: r =>
+    match pList (fun r => do let (k, r) ← pStr r; let (v, r) ← pStr r; some ((k, v), r)) r with
+    | some (ps, []) =>
+      let as := annosOfPairs ps
+      (st, s!"ok {as.length}" ++ String.join (as.map fun a =>
+        " " ++ VL.hexEncode a.key ++ s!" {a.values.length}" ++ String.join (a.values.map fun v => " " ++ VL.hexEncode v)))
+    | _ => (st, "bad-op")
   | ["P"] => ({}, "ok")
   | "A" :: idx :: r =>
     match idx.toNat?, pList pNat r with
@@ -264,6 +275,15 @@ def step (st : St) (line : String) : St × String :=
         let w := st.world.registerAST uuidTok a
         let gd := mapGet w.regs uuidTok
         ({ st with world := w, gd := gd }, s!"ok {(gd.getD []).length}")
+      | none => (st, "bad-op")
+    | none => (st, "bad-op")
+  | ["GC", root] =>
+    match root.toNat? with
+    | some i =>
+      match buildAst st.files (st.files.length + 1) i with
+      | some a =>
+        let g := (allFiles a).foldl (fun g f => registerBuilt g (describe f)) []
+        ({ st with world := { dflt := g, regs := [] }, gd := some g }, s!"ok {g.length}")
       | none => (st, "bad-op")
     | none => (st, "bad-op")
   | ["GD", path] =>
